@@ -23,6 +23,7 @@ import zipfile
 
 from core import framework as fw
 from core import sexp
+from props import c18h
 
 UTC = datetime.timezone.utc
 
@@ -278,7 +279,7 @@ def version_struct(v) -> list:
 
 
 # ---------------------------------------------------------------------------------------------------------
-class C18(fw.Check):
+class C18(c18h.Histories, c18h.KeyValues, c18h.Pep440, fw.Check):
     ID = 'C18'
     LEAN_MODULES = ['ForML.Props.C18']
     DRIVER = 'drv_c18'
@@ -289,26 +290,49 @@ class C18(fw.Check):
             'non-trivial when some optional field is set.  manifests: PEP 503/508 names, PEP 440 versions in every '
             'spelling, dotted packages, module maps over {source,pipeline,evaluation,extra} with ASCII / BMP / non-BMP '
             'identifiers and arbitrary printable values; distinct by (name, version, package, modules).  packages: '
-            'generated project trees (nested packages, custom module names, data files, __pycache__, *.dist-info, stale '
-            'root and nested __4ml__.py) packed as zip and as directory, installed, components compared by planted '
-            'tokens.  keys: ASCII texts over digits/sign/underscore/space/letters for Generation.Key, random key sets '
-            'for listings, random PEP 440 pairs for ordering vs the model, packaging and an independent PEP 440 key; random '
-            'registry contents (0..6 releases x 0..5 generations, repeats, shuffled) for the implicit "latest" key.  '
-            'Compared with the model: behaviour the property talks about (does the value read back, key acceptance on ASCII '
-            'text, listing content, order, normalised version text); differences in incidental mechanism (text written, '
-            'archive members, install mode) are counted under mechanism_drift and never alarm.')
+            'generated project trees with ADVERSARIAL NAMES (package names that are a prefix of / equal to a conventional '
+            'component name such as pipe / pipeline, dotted packages with repeated segments, no package at all, a trailing '
+            'dot; module names that begin with / equal / extend the package name, relative bare, relative dotted and '
+            'absolute mappings, components that are packages; decoy modules with other tokens where a wrong relative / '
+            'absolute decision would look; data files, __pycache__, *.dist-info, stale root and nested __4ml__.py) packed as '
+            'zip and as directory, installed twice, components compared by planted tokens and with the resolution the model '
+            'predicts.  HISTORIES over 1..3 locations in one process: 3..10 operations of Manifest.write / Package.create / '
+            'Package(src).install(dst) / Manifest.read / removal with 2..4 manifests of one project (versions of equal and '
+            'different text length, 1.0 vs 1.0.0) over 2..3 trees (zip-safe or not), bytecode files on or off, a clock of '
+            'whole seconds that ticks or not between operations; distinct by the whole history.  keys: ASCII texts over '
+            'digits/sign/underscore/space/letters for Generation.Key; Python VALUES of every type (int incl. huge / zero / '
+            'negative, bool, float integral / non-integral / inf / nan / exponent forms, str, bytes, None, tuples, '
+            'Generation.Key, packaging Version and Release.Key instances) for both key classes; random key sets for listings; '
+            'PEP 440: every string over a 15-character alphabet up to length 4 (5), every sequence of up to 3 (4) spelling '
+            'tokens bare and after a release, a grammar of valid spellings (sampled / complete), every code point below '
+            'U+3100 as padding — parsed fields vs packaging vs the model; order: all pairs of a grammar of 6 804 (12 474) '
+            'versions through dense ranks (model, Release.Key, independent PEP 440 key) plus random pairs; random registry '
+            'contents (0..6 releases x 0..5 generations, repeats, shuffled) for the implicit "latest" key.  '
+            'Compared with the model: behaviour the property talks about (does the value read back, which manifest / '
+            'components a history observes, which module a component resolves to, key acceptance, parsed version fields, '
+            'listing content, order, normalised version text); differences in incidental mechanism (text written, archive '
+            'members, install mode, how a defect the model predicts shows itself) are counted under mechanism_drift and never alarm.')
     TRUSTED = [
         'toml 0.10.2 line/section structure, float/int/date/datetime text forms, uuid text form, utf-8 (opaque tokens in '
         'the model; only key presence, value kind and the basic-string escaping of string ordinals are modelled)',
-        'Python import system, zipfile, shutil, json (only the string-literal sub-language is modelled), string.Template',
-        'packaging.version parsing (the model receives parsed fields; ordering and str() are modelled and compared)',
+        'Python import system beyond what is modelled (bytecode files validated by source mtime in whole seconds and size; one '
+        'path entry finder per location and kind kept for the life of the process; packages before modules; regular packages '
+        'only), zipfile, shutil, json (only the string-literal sub-language is modelled), string.Template',
+        'packaging.version: parsing and ordering are modelled (Keys.vparse / cmpkey) and compared exhaustively over the grammars '
+        'named in the rule; its regular-expression engine itself is trusted',
         'str.isprintable() agrees with the model on code points < 0x100 (checked at start-up); code points >= 0x100 are '
         'sent to the model only when printable',
     ]
     ASSUMPTIONS = ['legal string ordinals are sequences of Unicode scalar values (no lone surrogates)',
                    'timezone offsets are whole minutes; NaN ordinals compare equal to NaN and -0.0 to 0.0 (Python ==)',
                    'int(str) digit limit (4300 digits) is not reached',
-                   'Release.Key(str(v)) == v (packaging), sampled on every generated version']
+                   'a release is immutable: two different package contents never share a manifest; where a history puts an equal '
+                   'manifest over other content at the install target nothing is demanded of the installed components '
+                   '(already-installed shortcut of Package.install; Lean: C18_store_install_partial / _counterexample)',
+                   'histories: sys.path is restored after every operation (Package.install leaves its target on it); the mtime of a '
+                   'manifest file is set from the clock of the history (whole seconds) after the operation that stamped it',
+                   'repr(float) contains one of ". e n" (checked on every generated float)',
+                   'package directories are regular packages (with __init__.py); namespace packages are not generated']
 
     # ---- generators -----------------------------------------------------------------------------------
     STR_ALPHABET = ['a', 'b', 'x', 'u', 'U', '0', '1', 'f', '\\', '\\', '"', '"', "'", '#', '=', '[', ']', ',', ' ', '\t',
@@ -619,12 +643,6 @@ class C18(fw.Check):
             if not ok:
                 self.violate(f'Generation.Key({n}) is not the natural number {n} (or was accepted below one)',
                              {'kind': 'genkey-int', 'n': n}, 'genkey-int')
-        for bad in (True, 1.0, None.__class__, b'1', 1.5):
-            try:
-                K(bad)
-                self.violate(f'Generation.Key({bad!r}) accepted', {'kind': 'genkey-bad', 'value': repr(bad)}, 'genkey-accepts-non-integer')
-            except K.Invalid:
-                pass
 
     @staticmethod
     def _oracle_genkey(t: str, impl):
@@ -946,42 +964,93 @@ class C18(fw.Check):
     EVAL = ('from forml import evaluation, project\n\n\ndef {tok}(true, pred):\n    return 0.0\n\n\n'
             'project.setup(project.Evaluation(evaluation.Function({tok}), evaluation.HoldOut(test_size=0.2, stratify=False, random_state=1)))\n')
 
+    @staticmethod
+    def _put(tree: dict, segs: list, content) -> None:
+        """plant a file (content str) in the nested tree; intermediate directories become regular packages"""
+        level = tree
+        for d in segs[:-1]:
+            level = level.setdefault(d, {})
+            level.setdefault('__init__.py', '')
+        level[segs[-1]] = content
+
     def _gen_project(self, serial: int):
-        """-> (tree as nested dict name -> str content | dict, manifest args, expected tokens)"""
+        """-> (tree as nested dict name -> str content | dict, manifest args, expected tokens).
+        Package and module names are adversarial: packages whose name is a prefix of a conventional component name
+        (`pipe` / `pipeline`), module names that begin with / equal / extend the package name, dotted packages, relative
+        and absolute mappings, components that are packages; decoy modules with other tokens sit where a wrong
+        relative / absolute decision would look."""
         r = self.rng
-        top = f'c18p{self.seed}x{serial}'
-        parts = [top] + [self._gen_ident() for _ in range(r.choice([0, 0, 1, 2]))]
+        uniq = f'c18p{self.seed}x{serial}'
+        style = r.random()
+        if style < 0.45:
+            parts = [uniq] + [self._gen_ident() for _ in range(r.choice([0, 0, 1, 2]))]
+        elif style < 0.75:  # the package name is a prefix of / equal to a component name
+            parts = [r.choice(['s', 'so', 'sour', 'source', 'p', 'pipe', 'pipelin', 'pipeline', 'e', 'eval', 'evaluation'])]
+            if r.random() < 0.3:
+                parts.append(r.choice(['source', 'pipe', 'p', parts[0], self._gen_ident()]))
+        elif style < 0.95:  # dotted, repeated segments
+            parts = [uniq, r.choice([uniq, 'pipeline', 'source', uniq[:-1], self._gen_ident()])]
+            if r.random() < 0.3:
+                parts.append(r.choice([uniq, parts[1], self._gen_ident()]))
+        else:
+            parts = []  # no package: every component is a top-level module
         package = '.'.join(parts)
         tree: dict = {}
-        level = tree
-        for p in parts:
-            level[p] = {'__init__.py': ''}
-            level = level[p]
-        modules, tokens = {}, {}
+        if parts:
+            self._put(tree, parts + ['__init__.py'], '')
+        top, last = (parts[0], parts[-1]) if parts else ('', '')
+        modules, tokens, used, planted = {}, {}, set(), []
         for comp, tmpl in (('source', self.SRC), ('pipeline', self.PIPE), ('evaluation', self.EVAL)):
             if comp == 'evaluation' and r.random() < 0.4:
                 tokens[comp] = None
                 continue
             tok = f'Tok{comp[:3]}{serial}x{r.randint(0, 10 ** 6)}'
+            decoy = f'Decoy{comp[:3]}{serial}'
             tokens[comp] = tok
-            style = r.random()
-            if style < 0.5:
-                mod = comp  # conventional
-            elif style < 0.8:
-                mod = self._gen_ident() + comp[:2]  # relative custom name
-                modules[comp] = mod
+            names = [f'{last}_{comp}', f'{last}{comp[:3]}', last, f'{top}x', top[:-1], f'{comp}_{last}', comp + 'x', comp[:4],
+                     self._gen_ident() + comp[:2], self._gen_ident() + comp[:2]]
+            names = [n for n in names if n and n.isidentifier() and n not in used and n not in ('source', 'pipeline', 'evaluation')]
+            kind = r.random()
+            if kind < 0.4 or not names or not parts:
+                bare, mapped = comp, (None if r.random() < 0.8 or not parts else f'{package}.{comp}')  # conventional name
             else:
-                mod = self._gen_ident() + comp[:2]  # absolute custom name
-                modules[comp] = f'{package}.{mod}'
-            level[mod + '.py'] = tmpl.format(tok=tok)
+                bare = r.choice(names)
+                mapped = bare if kind < 0.75 else f'{package}.{bare}'
+            used.add(bare)
+            sub = None
+            if parts and mapped is not None and '.' not in mapped and r.random() < 0.15:
+                sub = r.choice(['sub', 'impl', comp[:3] + 'pkg'])  # a relative dotted mapping (never starting with the package name)
+                if sub != top:
+                    mapped = f'{sub}.{bare}'
+                else:
+                    sub = None
+            if mapped is not None:
+                modules[comp] = mapped
+            where = parts + ([sub] if sub else [])
+            if r.random() < 0.15:
+                self._put(tree, where + [bare, '__init__.py'], tmpl.format(tok=tok))  # the component is a package
+            else:
+                self._put(tree, where + [bare + '.py'], tmpl.format(tok=tok))
+            planted.append((bare, tmpl, decoy))
+        # decoys: where the name would be found if a relative name were taken as absolute, or the other way round
+        for bare, tmpl, decoy in planted:
+            if parts and bare != top and bare not in tree and bare + '.py' not in tree and r.random() < 0.7:
+                tree[bare + '.py'] = tmpl.format(tok=decoy)
+            if len(parts) == 1 and top not in used and top not in ('source', 'pipeline', 'evaluation') and top not in tree[top] and top + '.py' not in tree[top] and r.random() < 0.3:
+                self._put(tree, [top, top, bare + '.py'], tmpl.format(tok=decoy + 'n'))
+            elif len(parts) == 1 and isinstance(tree[top].get(top), dict) and top not in used:
+                tree[top][top].setdefault(bare + '.py', tmpl.format(tok=decoy + 'n'))
+        level = tree
+        for p in parts:
+            level = level[p]
         # decoys and extras
         if r.random() < 0.5:
             level['__pycache__'] = {'junk.cpython-312.pyc': 'junk'}
         if r.random() < 0.3:
-            tree[f'{top}-1.0.dist-info'] = {'METADATA': 'Name: x'}
+            tree[f'{uniq}-1.0.dist-info'] = {'METADATA': 'Name: x'}
         if r.random() < 0.4:
             tree['__4ml__.py'] = 'NAME = "stale"\nVERSION = "0"\nPACKAGE = "stale"\nMODULES = {}'
-        if r.random() < 0.3:
+        if r.random() < 0.3 and parts:
             level['__4ml__.py'] = '# nested file of the same name is ordinary content\n'
         if r.random() < 0.5:
             level[r.choice(['data.csv', 'README', 'conf.toml', 'x.pyc.txt'])] = 'a,b\n1,2\n'
@@ -989,6 +1058,8 @@ class C18(fw.Check):
             level['helper.py'] = 'VALUE = 1\n'
         if r.random() < 0.2:
             level['emptydir'] = {}
+        if parts and r.random() < 0.05:
+            package += '.'  # `Components.load` strips trailing dots
         manifest = (self._gen_name(), self._gen_version().strip().lstrip('vV') or '1', package, modules)
         return tree, manifest, tokens
 
@@ -1003,7 +1074,7 @@ class C18(fw.Check):
 
     @staticmethod
     def _tree_sexp(tree: dict):
-        return [['d', n, C18._tree_sexp(c)] if isinstance(c, dict) else ['f', n] for n, c in tree.items()]
+        return [['d', cps(n), C18._tree_sexp(c)] if isinstance(c, dict) else ['f', cps(n)] for n, c in tree.items()]
 
     @staticmethod
     def _tree_files(tree: dict, prefix: str = '') -> list[str]:
@@ -1029,8 +1100,9 @@ class C18(fw.Check):
                 return False
         return True
 
-    def _package_case(self, work: pathlib.Path, tree: dict, margs, tokens: dict, mode: str, mm=None) -> list:
-        """Create (zip) / assemble (dir) the package of `tree`, install it, load the components -> [(what, signature)]."""
+    def _package_case(self, work: pathlib.Path, tree: dict, margs, tokens: dict, mode: str, mm=None, observed: dict = None) -> list:
+        """Create (zip) / assemble (dir) the package of `tree`, install it, load the components -> [(what, signature)];
+        what was loaded goes to `observed['tokens']` (or `observed['error']`)."""
         from forml.project import _distribution as dist
 
         out = []
@@ -1038,7 +1110,12 @@ class C18(fw.Check):
         src = work / 'src'
         if not src.exists():
             self._materialise(tree, src)
-        manifest = dist.Manifest(margs[0], margs[1], margs[2], **margs[3])
+        try:
+            manifest = dist.Manifest(margs[0], margs[1], margs[2], **margs[3])
+        except Exception as e:  # pylint: disable=broad-except
+            if observed is not None:
+                observed['error'] = type(e).__name__
+            return [(f'Manifest{tuple(margs)} raised {type(e).__name__}: {e}', f'package-{mode}-raises-{type(e).__name__}')]
         try:
             if mode == 'zip':
                 pkg = dist.Package.create(src, manifest, work / f'{margs[0]}.4ml')
@@ -1051,47 +1128,105 @@ class C18(fw.Check):
             target = work / 'inst' / mode / margs[0]
             artifact = pkg.install(target)
             got = self._tokens_of(artifact.components)
+            if observed is not None:
+                observed['tokens'] = got
             installed = dist.Manifest.read(target)
             if mm is not None and mode == 'zip' and target.is_file() != (mm[1] == 'true'):
                 self._drift('zip-safe decision of Package.install', self._tree_files(tree), target.is_file(), mm[1])
             # idempotent re-install must keep the content
             again = self._tokens_of(pkg.install(target).components)
         except Exception as e:  # pylint: disable=broad-except
-            return [(f'{mode}-based package of {manifest} could not be created/installed/loaded: {type(e).__name__}: {e}',
-                     f'package-{mode}-raises-{type(e).__name__}')]
+            if observed is not None and 'tokens' not in observed:
+                observed['error'] = type(e).__name__
+            return [(f'{mode}-based package of {manifest} (package {margs[2]!r}, modules {margs[3]}) could not be created/installed/loaded: '
+                     f'{type(e).__name__}: {e}', f'package-{mode}-raises-{type(e).__name__}')]
         finally:
             sys.path[:] = [p for p in sys.path if not str(p).startswith(str(work))]
             for name in set(sys.modules) - mods0:
-                if name.split('.')[0].startswith('c18p') or name == '__4ml__':
+                m = sys.modules.get(name)
+                origin = str(getattr(m, '__file__', None) or getattr(getattr(m, '__spec__', None), 'origin', '') or '')
+                paths = [str(p) for p in (getattr(m, '__path__', None) or [])]
+                if name.split('.')[0].startswith('c18p') or name == '__4ml__' or origin.startswith(str(work)) or any(p.startswith(str(work)) for p in paths):
                     del sys.modules[name]
+            for key in list(sys.path_importer_cache):
+                if key.startswith(str(work)):
+                    del sys.path_importer_cache[key]
             importlib.invalidate_caches()
         if not self._manifest_equal(manifest, pkg.manifest) or not self._manifest_equal(manifest, installed):
             out.append((f'{mode}-based package manifest {manifest} reads back as {tuple(pkg.manifest)} / installed {tuple(installed)}',
                         f'package-{mode}-manifest'))
         if not self._tokens_match(got, tokens) or not self._tokens_match(again, tokens):
-            out.append((f'{mode}-based package of {manifest} (modules {margs[3]}) installs components {got}, written {tokens}',
+            out.append((f'{mode}-based package of {manifest} (package {margs[2]!r}, modules {margs[3]}) installs components {got}, written {tokens}',
                         f'package-{mode}-components'))
         if (artifact.package, dict(artifact.modules)) != (margs[2], margs[3]):
             out.append((f'artifact of {manifest} has package/modules {artifact.package}/{dict(artifact.modules)}', f'package-{mode}-artifact'))
         return out
 
+    @staticmethod
+    def _tree_token(tree: dict, dotted: str):
+        """the token planted in the module a dotted name denotes below the root of `tree` (packages before modules)"""
+        level = tree
+        segs = dotted.split('.')
+        for d in segs[:-1]:
+            level = level.get(d)
+            if not isinstance(level, dict) or '__init__.py' not in level:
+                return None
+        leaf = level.get(segs[-1])
+        text = None
+        if isinstance(leaf, dict) and isinstance(leaf.get('__init__.py'), str):
+            text = leaf['__init__.py']
+        elif isinstance(level.get(segs[-1] + '.py'), str):
+            text = level[segs[-1] + '.py']
+        if text is None:
+            return None
+        m = re.search(r'(Tok|Decoy)\w+', text)
+        return m.group(0) if m else ''
+
     def _packages(self):
-        n = self.n(20, 400)
+        n = self.n(24, 400)
         base = pathlib.Path(tempfile.mkdtemp(prefix='verif-c18-p-'))
         path0 = list(sys.path)
         try:
             projects = [self._gen_project(i) for i in range(n)]
             answers = self.model([sexp.dumps(['package', self._tree_sexp(t)]) for t, _, _ in projects])
-            for i, ((tree, margs, tokens), ans) in enumerate(zip(projects, answers)):
+            resolved = self.model([sexp.dumps(['components', cps(m[2]), [[cps(k), cps(v)] for k, v in m[3].items()], self._tree_sexp(t)])
+                                   for t, m, _ in projects])
+            for i, ((tree, margs, tokens), ans, res) in enumerate(zip(projects, answers, resolved)):
                 if pep440_key(margs[1]) is None:
                     continue
                 mm = sexp.loads(ans)
+                rr = sexp.loads(res)
+                if mm == 'bad-op' or rr == 'bad-op' or rr[0] != 'ok':
+                    raise fw.MachineryError(f'model rejected the project {tree} {margs}: {ans[:80]} {res[:80]}')
+                mm = [[uncps(sexp.num(n)) for n in mm[0]], mm[1]]
+                # the model: which module each component resolves to, and whether it is there in the source tree / installed
+                names = {comp: uncps(sexp.num(x[0])) for comp, x in zip(('source', 'pipeline', 'evaluation'), rr[1])}
+                found = {comp: (x[1], x[2], x[3]) for comp, x in zip(('source', 'pipeline', 'evaluation'), rr[1])}
+                predicted = {comp: (self._tree_token(tree, names[comp]) if found[comp][1] != 'nothing' else None) for comp in names}
+                adversarial = margs[2] == '' or not margs[2].startswith('c18p') or any(v.startswith(margs[2].split('.')[0]) for v in margs[3].values())
                 for mode in ('zip', 'dir'):
                     w = {'kind': 'package', 'mode': mode, 'tree': tree, 'manifest': [margs[0], margs[1], margs[2], margs[3]], 'tokens': tokens}
-                    self.case(('package', mode, i, json.dumps(tree, sort_keys=True)), f'package {mode} modules={len(margs[3])} eval={"y" if tokens["evaluation"] else "n"}',
-                              nontrivial=True, sample={'mode': mode, 'files': self._tree_files(tree), 'manifest': f'{margs[0]}-{margs[1]}', 'modules': margs[3]} if i < 2 else None)
-                    for what, sig in self._package_case(base / str(i), tree, margs, tokens, mode, mm):
+                    self.case(('package', mode, i, json.dumps(tree, sort_keys=True)),
+                              f'package {mode} modules={len(margs[3])} eval={"y" if tokens["evaluation"] else "n"}{" adversarial-names" if adversarial else ""}',
+                              nontrivial=True, sample={'mode': mode, 'files': self._tree_files(tree), 'manifest': f'{margs[0]}-{margs[1]}', 'package': margs[2],
+                                                       'modules': margs[3], 'resolved': names} if i < 2 else None)
+                    observed: dict = {}
+                    for what, sig in self._package_case(base / str(i), tree, margs, tokens, mode, mm, observed):
                         self.violate(what, w, sig)
+                    # model vs implementation: the component a name resolves to (by planted token)
+                    if 'tokens' in observed:
+                        got = observed['tokens']
+                        same = all((predicted[c] is None and got[c] is None) or (predicted[c] is not None and got[c] is not None and predicted[c] in got[c])
+                                   for c in predicted)
+                    else:
+                        got = ('error', observed.get('error'))
+                        same = predicted['source'] is None or predicted['pipeline'] is None
+                    if not same:
+                        self.diverge('component resolution of an installed package', {'mode': mode, 'package': margs[2], 'modules': margs[3], 'files': self._tree_files(tree)},
+                                     got, {'resolved': names, 'tokens': predicted})
+                    for comp, (fsrc, finst, ok) in found.items():
+                        if mode == 'zip' and fsrc != finst and ok == 'true':
+                            raise fw.MachineryError(f'model: installed tree differs from the source tree for {names[comp]} although its names are kept')
         finally:
             sys.path[:] = path0
             shutil.rmtree(base, ignore_errors=True)
@@ -1205,21 +1340,40 @@ class C18(fw.Check):
             if xesc != model:
                 raise fw.MachineryError(f'str.isprintable disagrees with the model table at U+{c:04X}')
 
+    def _guard(self, part: str, fn):
+        """Run one part of the correspondence.  An exception that comes out of the code under test (a frame inside the tree
+        under test or its libraries `packaging` / `toml`) is behaviour, not a machinery error: it is recorded as a violation
+        of that part and the check goes on."""
+        import traceback
+
+        try:
+            fn()
+        except fw.MachineryError:
+            raise
+        except Exception as e:  # pylint: disable=broad-except
+            frames = traceback.extract_tb(e.__traceback__)
+            inner = [f for f in frames if f.filename.startswith(os.path.join(fw.REPO, 'forml')) or '/packaging/' in f.filename or '/toml/' in f.filename]
+            if not inner:
+                raise
+            where = [f'{os.path.basename(f.filename)}:{f.lineno} {f.name}' for f in frames[-4:]]
+            self.violate(f'{part}: the code under test raised {type(e).__name__}: {e} ({"; ".join(where)})',
+                         {'kind': 'exception', 'part': part, 'exception': type(e).__name__, 'frames': where}, f'unexpected-exception-{part}')
+
     def correspondence(self):
         self._selfcheck()
-        self._tags()
-        self._genkeys()
-        self._listings()
-        self._versions()
-        self._manifests()
-        self._packages()
+        for part, fn in (('tags', self._tags), ('generation-keys', self._genkeys), ('key-values', self._key_values), ('listings', self._listings),
+                         ('release-keys', self._versions), ('pep440-syntax', self._pep440_syntax), ('pep440-order', self._pep440_order),
+                         ('manifests', self._manifests), ('packages', self._packages), ('histories', self._histories)):
+            self._guard(part, fn)
         drift = self.extra.get('mechanism_drift', {})
         self.extra['mechanism_drift'] = drift  # always present in the evidence; empty = the model mirrors the mechanism
         for what, d in drift.items():
             self.notes.append(f'mechanism drift (no alarm): {what}: {d["count"]} case(s), first {json.dumps(d["first"], default=str)[:300]}')
 
     def search(self, reason):
-        """Widen around diverging tag cases: mutate their strings, run the oracle on the real code."""
+        """Widen around the diverging cases and run the oracle on the real code: tags (mutated strings), histories over
+        locations (reads inserted after every operation, operations repeated), component resolution (the diverging
+        package / module map over fresh trees with decoys at the other interpretation)."""
         tried = 0
         for d in self.divergences[:50]:
             c = d.case
@@ -1239,6 +1393,61 @@ class C18(fw.Check):
                 if v:
                     self.violate(v[0], {'kind': 'tag', 'tag': self._shrink_tag(cand, v[1])}, v[1])
         self.notes.append(f'failing-input search ({reason}): {tried} mutated tags through the oracle')
+        # histories: every location is read after every operation; operations are doubled
+        tried = 0
+        for d in [x for x in self.divergences if isinstance(x.case, dict) and 'history' in x.case][:10]:
+            w = d.case['history']
+            variants = []
+            ops = []
+            for op in w['ops']:
+                ops.append(op)
+                ops.extend(['read', p] for p in range(w['nloc']))
+            variants.append(dict(w, ops=ops, ambiguous=False))
+            variants.append(dict(w, ops=[o for op in w['ops'] for o in (op, op)] + [['read', p] for p in range(w['nloc'])], ambiguous=False))
+            for bc in (False, True):
+                variants.append(dict(w, bc=bc, ops=w['ops'] + [['read', p] for p in range(w['nloc'])], ambiguous=False))
+            for cand in variants:
+                tried += 1
+                v = self._h_oracle(cand, self._h_exec(cand))
+                if v:
+                    self.violate(v[0], self._h_shrink(cand, v[1]), v[1])
+                    break
+        # component resolution: the diverging package name / module map, planted by the documented rule
+        for d in [x for x in self.divergences if isinstance(x.case, dict) and 'modules' in x.case and 'package' in x.case][:10]:
+            package, modules = d.case['package'], d.case['modules']
+            if not package:
+                continue
+            parts = package.rstrip('.').split('.')
+            tree, tokens = {}, {}
+            self._put(tree, parts + ['__init__.py'], '')
+            for comp, tmpl in (('source', self.SRC), ('pipeline', self.PIPE)):
+                name = modules.get(comp) or comp
+                tok = f'Tok{comp[:3]}s{tried}'
+                tokens[comp] = tok
+                if '.' not in name:  # "modules without dot in their names are considered as relative to that package"
+                    self._put(tree, parts + [name + '.py'], tmpl.format(tok=tok))
+                    if name != parts[0]:
+                        tree[name + '.py'] = tmpl.format(tok='Decoy' + comp[:3])
+                elif name.startswith(package.rstrip('.') + '.'):
+                    self._put(tree, name.split('.')[:-1] + [name.split('.')[-1] + '.py'], tmpl.format(tok=tok))
+                else:
+                    tokens = None
+                    break
+            if tokens is None:
+                continue
+            tokens['evaluation'] = None
+            base = pathlib.Path(tempfile.mkdtemp(prefix='verif-c18-s-'))
+            path0 = list(sys.path)
+            try:
+                for mode in ('zip', 'dir'):
+                    tried += 1
+                    margs = ['search', '1.0', package, {k: v for k, v in modules.items() if k in ('source', 'pipeline')}]
+                    for what, sig in self._package_case(base / mode, tree, margs, tokens, mode):
+                        self.violate(what, {'kind': 'package', 'mode': mode, 'tree': tree, 'manifest': margs, 'tokens': tokens}, sig)
+            finally:
+                sys.path[:] = path0
+                shutil.rmtree(base, ignore_errors=True)
+        self.notes.append(f'failing-input search ({reason}): {tried} widened histories / projects through the oracle')
 
     def replay_finding(self, entry):
         w = entry['witness']
@@ -1251,6 +1460,10 @@ class C18(fw.Check):
             return self._replay_manifest(w)
         if kind == 'package':
             return self._replay_package(w)
+        if kind == 'history':
+            return self._replay_history(w)
+        if kind == 'keyvalue':
+            return self._replay_keyvalue(w)
         return self._replay_keys(w)
 
 
